@@ -346,3 +346,5 @@ def run(rep, facts, tier):
         n_eps += len(eps)
         panic_audit(rep, cfg, eps)
     rep.floor("decode_entry_points_total", n_eps, 10)
+    from . import witness
+    witness.check(rep, "C02", tier)
